@@ -344,4 +344,286 @@ Proof.
       * rewrite R2, R1. rewrite firstn_S_upd by exact Hi. rewrite Hbl. rewrite <- app_assoc. reflexivity.
 Qed.
 
+(* ---------------------------------------------------------------------------------------------- *)
+(** * splineutil.c's bspline is the right-continuous Cox–de Boor function (0/0 := 0) on non-decreasing knots *)
+Section Basis.
+Variable kn : Z -> K.
+Variable nknots : Z.
+Hypothesis Hmono : forall i j, (0 <= i)%Z -> (i <= j)%Z -> (j < nknots)%Z -> le (kn i) (kn j).
+
+Lemma Bfun_degenerate x : forall n i, (forall j, (i <= j <= i + Z.of_nat n + 1)%Z -> kn j = kn i) -> Bfun kn true n i x = zero.
+Proof.
+  induction n as [|n IH]; intros i H.
+  - cbn [Bfun B0]. rewrite (H (i + 1)%Z) by lia.
+    destruct (leb (kn i) x) eqn:E; cbn [andb]; [|reflexivity]. rewrite (le_not_lt F _ _ E). reflexivity.
+  - cbn [Bfun]. rewrite IH by (intros j Hj; apply H; lia).
+    rewrite IH by (intros j Hj; rewrite (H j) by lia; symmetry; apply H; lia). ring.
+Qed.
+Lemma knots_equal a b : (0 <= a)%Z -> (a <= b)%Z -> (b < nknots)%Z -> sub (kn b) (kn a) = zero ->
+  forall j, (a <= j <= b)%Z -> kn j = kn a.
+Proof.
+  intros Ha Hab Hb E j Hj. apply (sub_zero_eq F) in E.
+  apply (le_antisym F); [rewrite E; apply Hmono; lia | apply Hmono; lia].
+Qed.
+Lemma bspline_Bfun x : forall n i, (0 <= i)%Z -> (i + Z.of_nat n + 1 < nknots)%Z -> bspline kn n x i = Bfun kn true n i x.
+Proof.
+  induction n as [|n IH]; intros i Hi Hn.
+  - reflexivity.
+  - cbn [bspline Bfun]. rewrite !IH by lia.
+    set (nz := Z.of_nat (S n)).
+    assert (T1 : div (mul (sub x (kn i)) (Bfun kn true n i x)) (sub (kn (i + nz)) (kn i)) =
+                 mul (wdiv (sub x (kn i)) (sub (kn (i + nz)) (kn i))) (Bfun kn true n i x)).
+    { destruct (eqbK (sub (kn (i + nz)) (kn i)) zero) eqn:E.
+      - apply (eqbK_true F) in E. rewrite (wdiv_z F) by exact E.
+        rewrite (Bfun_degenerate x n i); [rewrite E; rewrite (Fdiv_def (OFth F)); ring|].
+        intros j Hj. apply (knots_equal i (i + nz)); unfold nz; try lia. exact E.
+      - assert (sub (kn (i + nz)) (kn i) <> zero) as NZ by (intro Z0; rewrite Z0 in E; rewrite (proj2 (eqbK_true F zero zero) eq_refl) in E; discriminate).
+        rewrite (wdiv_nz F) by exact NZ. field. exact NZ. }
+    assert (T2 : div (mul (sub (kn (i + nz + 1)) x) (Bfun kn true n (i + 1) x)) (sub (kn (i + nz + 1)) (kn (i + 1))) =
+                 mul (wdiv (sub (kn (i + nz + 1)) x) (sub (kn (i + nz + 1)) (kn (i + 1)))) (Bfun kn true n (i + 1) x)).
+    { destruct (eqbK (sub (kn (i + nz + 1)) (kn (i + 1))) zero) eqn:E.
+      - apply (eqbK_true F) in E. rewrite (wdiv_z F) by exact E.
+        rewrite (Bfun_degenerate x n (i + 1)); [rewrite E; rewrite (Fdiv_def (OFth F)); ring|].
+        intros j Hj. apply (knots_equal (i + 1) (i + nz + 1)); unfold nz; try lia. exact E.
+      - assert (sub (kn (i + nz + 1)) (kn (i + 1)) <> zero) as NZ by (intro Z0; rewrite Z0 in E; rewrite (proj2 (eqbK_true F zero zero) eq_refl) in E; discriminate).
+        rewrite (wdiv_nz F) by exact NZ. field. exact NZ. }
+    rewrite T1, T2. reflexivity.
+Qed.
+End Basis.
+
+Definition wfd (d : @dimn A) : Prop := wf_dim (fun _ => True) d.
+Lemma wfd_nsplines (d : @dimn A) : wfd d -> nsplines d = Z.to_nat (d_naxes d) /\ (0 < d_naxes d)%Z.
+Proof. intros [W1 [W2 _]]. unfold nsplines. rewrite W2. split; [reflexivity | lia]. Qed.
+
+Lemma mget_basis (d : @dimn A) (xs : list K) r k : r < length xs -> k < nsplines d ->
+  mget (basis_matrix d xs) r k = bspline (d_kn d) (d_order d) (nth r xs zero) (Z.of_nat k).
+Proof.
+  intros Hr Hk. unfold mget, basis_matrix.
+  set (f := fun x => map (fun col => bspline (d_kn d) (d_order d) x (Z.of_nat col)) (seq 0 (nsplines d))).
+  rewrite (nth_indep (map f xs) [] (f zero)) by (rewrite map_length; exact Hr). rewrite map_nth. unfold f.
+  set (g := fun col => bspline (d_kn d) (d_order d) (nth r xs zero) (Z.of_nat col)).
+  rewrite (nth_indep (map g (seq 0 (nsplines d))) zero (g 0)) by (rewrite map_length, seq_length; exact Hk).
+  rewrite map_nth, seq_nth by exact Hk. reflexivity.
+Qed.
+Lemma basis_entry (d : @dimn A) (xs : list K) r k : wfd d -> r < length xs -> k < nsplines d ->
+  mget (basis_matrix d xs) r k = Bfun (d_kn d) true (d_order d) (Z.of_nat k) (nth r xs zero).
+Proof.
+  intros W Hr Hk. rewrite mget_basis by assumption. destruct W as [W1 [W2 [_ W4]]].
+  apply (bspline_Bfun (d_kn d) (d_nknots d)); [exact W4 | lia |]. unfold nsplines in Hk. lia.
+Qed.
+
+(* ---------------------------------------------------------------------------------------------- *)
+(** * from the in-place index vector to prefix/suffix form, and to the specification *)
+Fixpoint TSz (X : list nat -> K) (ds : list (@dimn A)) (gs : list (list K)) (pre suf : list nat) (pr : K) : K :=
+  match ds, gs, suf with
+  | d :: ds', xs :: gs', r :: suf' =>
+      nsum (nsplines d) (fun k => TSz X ds' gs' (pre ++ [k]) suf' (mul pr (mget (basis_matrix d xs) r k)))
+  | _, _, _ => mul pr (X (pre ++ suf))
+  end.
+Lemma upd_middle {X} (pre : list X) r suf v : upd (pre ++ r :: suf) (length pre) v = pre ++ v :: suf.
+Proof. induction pre as [|x pre IH]; cbn [app length upd]; [reflexivity|]. f_equal. exact IH. Qed.
+Lemma TS_TSz X : forall ds gs pre suf pr, length suf = length ds -> length gs = length ds ->
+  TS X ds gs (length pre) (pre ++ suf) pr = TSz X ds gs pre suf pr.
+Proof.
+  induction ds as [|d ds IH]; intros gs pre suf pr H1 H2; destruct gs as [|xs gs]; destruct suf as [|r suf]; try discriminate; cbn [TS TSz]; try reflexivity.
+  rewrite nth_middle. apply nsum_ext. intros k _. rewrite upd_middle.
+  replace (pre ++ k :: suf) with ((pre ++ [k]) ++ suf) by (rewrite <- app_assoc; reflexivity).
+  replace (S (length pre)) with (length (pre ++ [k])) by (rewrite app_length; cbn [length]; lia).
+  apply IH; cbn [length] in *; lia.
+Qed.
+
+Fixpoint posZ (ds : list (@dimn A)) (m : list nat) : Z :=
+  match ds, m with
+  | d :: ds', k :: m' => (Z.of_nat k * d_stride d + posZ ds' m')%Z
+  | _, _ => 0%Z
+  end.
+
+Lemma TSz_spec (cf : Z -> K) X : forall ds gs pre suf pr P,
+  Forall wfd ds -> Forall2 (fun r (xs : list K) => r < length xs) suf gs -> length suf = length ds ->
+  (forall ks, Forall2 (fun k d => k < nsplines d) ks ds -> X (pre ++ ks) = cf (P + posZ ds ks)%Z) ->
+  TSz X ds gs pre suf pr = tensor_sum_rc cf ds (grid_point gs suf) P pr.
+Proof.
+  induction ds as [|d ds IH]; intros gs pre suf pr P Hwf Hin Hlen HX.
+  - destruct suf; [|discriminate]. assert (E : TSz X [] gs pre [] pr = mul pr (X (pre ++ []))) by (destruct gs; reflexivity).
+    rewrite E. rewrite (HX [] (Forall2_nil _)). cbn [posZ]. rewrite Z.add_0_r.
+    destruct gs; reflexivity.
+  - destruct suf as [|r suf]; [discriminate|]. inversion Hin as [|? xs ? gs' Hr Hin']; subst.
+    inversion Hwf as [|? ? Wd Wds]; subst. destruct (wfd_nsplines d Wd) as [Hns Hna].
+    cbn [TSz grid_point tensor_sum_rc]. rewrite sum_range_nsum. rewrite <- Hns. apply nsum_ext. intros k Hk.
+    rewrite (IH gs' (pre ++ [k]) suf _ (P + Z.of_nat k * d_stride d)%Z); [| exact Wds | exact Hin' | cbn [length] in Hlen; lia |].
+    + rewrite (basis_entry d xs r k Wd Hr Hk). reflexivity.
+    + intros ks Hks. rewrite <- app_assoc. cbn [app]. rewrite (HX (k :: ks)) by (constructor; assumption).
+      cbn [posZ]. f_equal. lia.
+Qed.
+
+(* ---------------------------------------------------------------------------------------------- *)
+(** * the coefficient walk of grideval.h: row-major strides *)
+Inductive RM : list (@dimn A) -> Z -> Prop :=
+| RM_nil : RM [] 1%Z
+| RM_cons d ds s : RM ds s -> d_stride d = s -> (0 < d_naxes d)%Z -> RM (d :: ds) (d_naxes d * s)%Z.
+Lemma RM_pos ds s : RM ds s -> (0 < s)%Z.
+Proof. induction 1; [lia|]. nia. Qed.
+Definition in_axes (m : list nat) (ds : list (@dimn A)) : Prop := Forall2 (fun k d => (Z.of_nat k < d_naxes d)%Z) m ds.
+
+Lemma decomp_posZ ds s : RM ds s -> forall m, in_axes m ds ->
+  (0 <= posZ ds m < s)%Z /\ decomp (map d_stride ds) (posZ ds m) = m.
+Proof.
+  induction 1 as [|d ds s HR IH Hs Hn]; intros m Hm; inversion Hm as [|k ? m' ? Hk Hm']; subst.
+  - cbn [posZ decomp map]. split; [lia|reflexivity].
+  - destruct (IH m' Hm') as [Hb Hd]. pose proof (RM_pos _ _ HR) as Hp. cbn [posZ decomp map]. split; [nia|].
+    f_equal.
+    + rewrite Z.div_add_l by lia. rewrite Z.div_small by lia. lia.
+    + rewrite Z.add_comm, Z_mod_plus_full, Z.mod_small by lia. exact Hd.
+Qed.
+Lemma posZ_decomp ds s : RM ds s -> forall i, (0 <= i < s)%Z ->
+  posZ ds (decomp (map d_stride ds) i) = i /\ in_axes (decomp (map d_stride ds) i) ds.
+Proof.
+  induction 1 as [|d ds s HR IH Hs Hn]; intros i Hi.
+  - cbn [posZ decomp map]. split; [lia|constructor].
+  - pose proof (RM_pos _ _ HR) as Hp. cbn [posZ decomp map]. rewrite Hs.
+    destruct (IH (i mod s)%Z (Z.mod_pos_bound i s Hp)) as [E1 E2].
+    assert (H0 : (0 <= i / s)%Z) by (apply Z.div_pos; lia).
+    split.
+    + rewrite E1, Z2Nat.id by exact H0. pose proof (Z.div_mod i s ltac:(lia)). lia.
+    + constructor; [|exact E2]. rewrite Z2Nat.id by exact H0. apply Z.div_lt_upper_bound; lia.
+Qed.
+Lemma in_axes_nth m ds : in_axes m ds -> length m = length ds /\
+  forall l, l < length ds -> nth l m 0 < nth l (map (fun d => Z.to_nat (d_naxes d)) ds) 0.
+Proof.
+  induction 1 as [|k d m ds Hk H IH]; cbn [length map]; [split; [reflexivity|lia]|].
+  destruct IH as [E1 E2]. split; [lia|]. intros [|l] Hl; cbn [nth]; [lia|]. apply E2. lia.
+Qed.
+
+Section Initial.
+Variable t : @table A.
+Variable s : Z.
+Hypothesis Hne : dims t <> [].
+Hypothesis HRM : RM (dims t) s.
+
+Lemma table_size_s : table_size t = Z.to_nat s.
+Proof.
+  unfold table_size. destruct (dims t) as [|d ds] eqn:E; [contradiction|]. inversion HRM; subst. reflexivity.
+Qed.
+Lemma initial_wf : wf_nd (initial_nd t).
+Proof.
+  unfold wf_nd, initial_nd, coeff_entries. cbn [nd_entries nd_ranges]. intros e He.
+  apply filter_In in He. destruct He as [He _]. apply in_map_iff in He. destruct He as [i [<- Hi]]. apply in_seq in Hi.
+  rewrite table_size_s in Hi. cbn [fst]. rewrite map_length.
+  destruct (posZ_decomp _ _ HRM (Z.of_nat i) ltac:(lia)) as [_ E2].
+  unfold strides_of. exact (in_axes_nth _ _ E2).
+Qed.
+Lemma initial_get m : in_axes m (dims t) -> nd_get (initial_nd t) m = coef t (posZ (dims t) m).
+Proof.
+  intro Hm. destruct (decomp_posZ _ _ HRM m Hm) as [Hb Hd].
+  unfold nd_get, initial_nd, coeff_entries. cbn [nd_entries]. rewrite lsumK_filter, lsumK_map. cbn [fst snd].
+  fold (nsum (table_size t) (fun i => if nonzeroK (coef t (Z.of_nat i)) then (if idx_eqb (decomp (strides_of t) (Z.of_nat i)) m then coef t (Z.of_nat i) else zero) else zero)).
+  rewrite (nsum_single _ (table_size t) (Z.to_nat (posZ (dims t) m))).
+  - rewrite Z2Nat.id by lia. unfold strides_of. rewrite Hd, idx_eqb_refl.
+    destruct (nonzeroK (coef t (posZ (dims t) m))) eqn:E; [reflexivity|]. symmetry. apply nonzeroK_false. exact E.
+  - rewrite table_size_s. lia.
+  - intros i Hi Hne'. rewrite table_size_s in Hi.
+    rewrite idx_eqb_neq; [destruct (nonzeroK _); reflexivity|]. intro E. apply Hne'.
+    destruct (posZ_decomp _ _ HRM (Z.of_nat i) ltac:(lia)) as [E1 _]. unfold strides_of in E. rewrite E in E1. lia.
+Qed.
+End Initial.
+
+(* ---------------------------------------------------------------------------------------------- *)
+(** * grideval *)
+Definition grid_in (g : list nat) (grids : list (list K)) : Prop := Forall2 (fun r (xs : list K) => r < length xs) g grids.
+
+Section GridEval.
+Variable t : @table A.
+Variable grids : list (list K).
+Variable s : Z.
+Variable a : @ndsparse A.
+Hypothesis Hwf : Forall wfd (dims t).
+Hypothesis HRM : RM (dims t) s.
+Hypothesis Hgne : Forall (fun xs : list K => xs <> []) grids.
+Hypothesis Hev : grideval t grids = GOk a.
+
+Lemma grideval_inv : dims t <> [] /\ length grids = length (dims t) /\ a = grid_loop 0 (dims t) grids (initial_nd t).
+Proof.
+  unfold grideval, ndim_of in Hev.
+  destruct (Nat.eqb_spec (length grids) (length (dims t))) as [E|E]; cbn [negb] in Hev; [|discriminate].
+  destruct (Nat.eqb_spec (length (coeff_entries t)) 0) as [E1|E1]; cbn [orb] in Hev; [discriminate|].
+  destruct (Nat.eqb_spec (length (dims t)) 0) as [E2|E2]; [discriminate|].
+  injection Hev as <-. split; [|split; [exact E|reflexivity]]. intro H. rewrite H in E2. cbn in E2. lia.
+Qed.
+
+Lemma grideval_loop :
+  wf_nd a /\ (forall g, nd_get a g = TS (nd_get (initial_nd t)) (dims t) grids 0 g one) /\ nd_ranges a = map (@length K) grids.
+Proof.
+  destruct grideval_inv as [Hne [Hlen ->]].
+  destruct (grid_loop_spec (dims t) grids 0 (initial_nd t)) as [W [G R]].
+  - exact (initial_wf t s Hne HRM).
+  - cbn [nd_ranges initial_nd]. rewrite map_length. lia.
+  - exact Hlen.
+  - cbn [nd_ranges initial_nd]. apply Forall_forall. intros r Hr. apply in_map_iff in Hr. destruct Hr as [d [<- Hd]].
+    rewrite Forall_forall in Hwf. destruct (wfd_nsplines d (Hwf d Hd)). lia.
+  - exact Hgne.
+  - intros q d Hq. cbn [nd_ranges initial_nd Nat.add].
+    rewrite (nth_error_nth _ _ 0 (map_nth_error (fun d => Z.to_nat (d_naxes d)) q (dims t) Hq)).
+    rewrite Forall_forall in Hwf. apply wfd_nsplines. apply Hwf. eapply nth_error_In. exact Hq.
+  - split; [exact W|]. split; [exact G|]. rewrite R. reflexivity.
+Qed.
+
+Theorem grideval_ranges : nd_ranges a = map (@length K) grids.
+Proof. apply grideval_loop. Qed.
+
+Theorem grideval_spec g : grid_in g grids -> nd_get a g = grid_spec t (grid_point grids g).
+Proof.
+  intro Hg. destruct grideval_loop as [_ [G _]]. destruct grideval_inv as [Hne [Hlen _]].
+  assert (Hgl : length g = length (dims t)).
+  { rewrite <- Hlen. clear - Hg. induction Hg; cbn [length]; lia. }
+  rewrite G. change 0 with (length (@nil nat)). change g with ([] ++ g) at 1. rewrite TS_TSz by lia.
+  unfold grid_spec. apply TSz_spec; [exact Hwf | exact Hg | exact Hgl |].
+  intros ks Hks. cbn [app]. rewrite Z.add_0_l. apply (initial_get t s Hne HRM).
+  clear - Hks Hwf. induction Hks as [|k d ks ds Hk H IH]; [constructor|].
+  inversion Hwf as [|? ? Wd Wds]; subst. constructor; [|apply IH; exact Wds].
+  destruct (wfd_nsplines d Wd). lia.
+Qed.
+
+Theorem grideval_outside g : ~ in_ranges (map (@length K) grids) g -> nd_get a g = zero.
+Proof.
+  intro H. destruct grideval_loop as [W [_ R]]. apply nd_get_out_of_range; [exact W|]. rewrite R. exact H.
+Qed.
+Theorem grideval_unlisted g : grid_in g grids -> nd_listed a g = false ->
+  nd_get a g = zero /\ grid_spec t (grid_point grids g) = zero.
+Proof.
+  intros Hg Hl. pose proof (nd_get_unlisted a g Hl) as E. split; [exact E|]. rewrite <- (grideval_spec g Hg). exact E.
+Qed.
+End GridEval.
+
+(* ---------------------------------------------------------------------------------------------- *)
+(** * agreement with pointwise evaluation (C01) *)
+Lemma tensor_rc_zero (cf : Z -> K) : forall ds xs pos, tensor_sum_rc cf ds xs pos zero = zero.
+Proof.
+  induction ds as [|d ds IH]; intros xs pos; [cbn [tensor_sum_rc]; ring|].
+  destruct xs as [|x xs]; [cbn [tensor_sum_rc]; ring|]. cbn [tensor_sum_rc].
+  apply (sum_range_zero F). intros i _. rewrite (mul_zero_l F). apply IH.
+Qed.
+Lemma rc_is_side (cf : Z -> K) : forall ds xs pos pr, Forall2 (fun d x => side_of d x = true) ds xs ->
+  tensor_sum cf ds xs (repeat O (length ds)) pos pr = tensor_sum_rc cf ds xs pos pr.
+Proof.
+  induction ds as [|d ds IH]; intros xs pos pr H; inversion H as [|? x ? xs' Hs H']; subst; [reflexivity|].
+  cbn [length repeat tensor_sum tensor_sum_rc]. first [apply (sum_range_ext F) | apply sum_range_ext]. intros i _. cbv zeta.
+  rewrite Hs. cbn [dBfun].
+  destruct (eqbK (Bfun (d_kn d) true (d_order d) i x) zero) eqn:E.
+  - apply (eqbK_true F) in E. rewrite E, (mul_zero_r F), tensor_rc_zero. reflexivity.
+  - apply IH. exact H'.
+Qed.
+
+Theorem grid_spec_pointwise (t : @table A) (xs : list K) (cs : list Z) :
+  dims t <> [] -> Forall wfd (dims t) -> nth (ndim_of t - 1) (strides_of t) 0%Z = 1%Z -> length xs = length (dims t) ->
+  searchcenters t xs = CFound cs ->
+  Forall2 (fun d x => side_of d x = true) (dims t) xs ->           (* x_d < knots_d[naxes_d] in every dimension *)
+  grid_spec t xs = ndsplineeval t xs cs 0.
+Proof.
+  intros Hne Hwf Hrow Hlen Hsc Hside.
+  rewrite (eval_is_tensor_sum F t xs cs Hne Hwf Hrow Hlen Hsc).
+  - unfold spline_spec, grid_spec, ndim_of. rewrite rc_is_side by exact Hside. reflexivity.
+  - clear - Hside F. induction Hside as [|d x ds xs' Hs H IH]; constructor; [|exact IH].
+    unfold eval_regular. intro Hle. exfalso. unfold side_of in Hs. exact (OFieldKit.lt_not_le F _ _ Hs Hle).
+Qed.
+
 End Sums.
